@@ -1063,4 +1063,124 @@ example (m2 : Ks.R 1) (σ : ℕ → Ks.R 1) :
     (by intro i _ r _; exact (add_sub_cancel _ _).symm)
   exact ⟨res, h1, h2⟩
 
+/-- **`cmux_decrypts`** — `Cmux::cmux`, END TO END, both accumulator widths, every `dsize ≥ 1`, every rank: the call returns and satisfies
+`Core.CmuxSpec` with `d = t − f` (`glwe_sub`) and the added operand `f`:
+`2^(bg·S)·phase(res) = 2^(rb·rs)·(m2·Σσ_i·usedVal(d_i) + Σ(Σ_r digit·E − dropped − β^S·head) + phase(f)) + En + 2^(…)·Q`,
+`‖En‖_∞ ≤ (1 + Σ‖s_i‖₁)·normTol`.  Hypotheses: entry guard, head-room `|product| ≤ X`, `|f| ≤ Y`, `X + Y + 8 ≤ 2^62 / 2^126`, key relation. -/
+theorem cmux_decrypts {N : Nat} (big128 : Bool) (rb rs : Nat) (t f : List Col) (g : EpGGSW) (res0 tmp0 : List Col) (sk : List Poly)
+    (X Y : Int)
+    (hg : (g.n == N && g.wf && rb == g.base2k && shapeOk N (g.rank + 1) (t.getD 0 []).length t
+       && shapeOk N (g.rank + 1) (f.getD 0 []).length f) = true)
+    (hgb1 : 1 ≤ g.base2k) (hgb : g.base2k ≤ 62)
+    (hX0 : 0 ≤ X) (hY0 : 0 ≤ Y) (hH : X + Y + 8 ≤ 2 ^ (bitsOf big128 - 2))
+    (hPb : ∀ c ∈ epInternal (glweSubSameRank N rs t f) g res0 tmp0, ∀ l ∈ c, ∀ x ∈ l, |x| ≤ X)
+    (hfb : ∀ c ∈ f, ∀ l ∈ c, ∀ x ∈ l, |x| ≤ Y)
+    (m2 : Ks.R N) (σ : ℕ → Ks.R N) (E : ℕ → ℕ → Ks.R N)
+    (hd : 1 ≤ g.dsize) (hN : 0 < N) (hn : g.n = N)
+    (haD : shapeOk g.n (g.rank + 1) ((glweSubSameRank N rs t f).getD 0 []).length (glweSubSameRank N rs t f) = true)
+    (h0 : shapeOk g.n (g.rank + 1) g.size res0 = true) (ht : shapeOk g.n (g.rank + 1) g.size tmp0 = true)
+    (hM : ∀ j q, (g.toPMat.entry j q).length = N) (hS : g.dnum * g.dsize ≤ g.size)
+    (hkey : ∀ i, i < g.rank + 1 → ∀ r, r < g.dnum →
+      Gadget.val ((2 : Ks.R N) ^ g.base2k) g.size (Ks.keyPhase N sk g.toPMat i r)
+        = m2 * σ i * ((2 : Ks.R N) ^ g.base2k) ^ (g.size - (r + 1) * g.dsize) + E i r) :
+    ∃ res, cmux big128 N rb rs t f g res0 tmp0 = .ok res ∧ CmuxSpec N rb rs g sk m2 σ E (glweSubSameRank N rs t f) f res := by
+  have hg' := hg
+  simp only [Bool.and_eq_true, beq_iff_eq] at hg'
+  obtain ⟨⟨⟨⟨_, _⟩, hrb⟩, _⟩, hfs⟩ := hg'
+  obtain ⟨res, h1, h2⟩ := cmuxTail_total big128 rb rs (glweSubSameRank N rs t f) f g res0 tmp0 sk X Y hrb hgb1 hgb hX0 hY0 hH hPb
+    (shapeOk_limbs N _ _ f hfs) hfb m2 σ E hd hN hn haD h0 ht hM hS hkey
+  refine ⟨res, ?_, h2⟩
+  unfold cmux
+  simp only [hg, Bool.not_true, Bool.false_eq_true, if_false]
+  exact h1
+
+example (m2 : Ks.R 1) (σ : ℕ → Ks.R 1) : ∃ res, cmux true 1 4 3 ([[[1], [2], [3]], [[0], [1], [0]]] : List Col) ([[[0], [0], [1]], [[0], [0], [0]]] : List Col) staleG (zeroCols 1 2 4) (zeroCols 1 2 4) = .ok res ∧ C02L.GWF 1 (Ks.mkCt 4 1 res) := by
+  obtain ⟨res, h1, h2, _⟩ := cmux_decrypts (N := 1) true 4 3 ([[[1], [2], [3]], [[0], [1], [0]]] : List Col) ([[[0], [0], [1]], [[0], [0], [0]]] : List Col) staleG (zeroCols 1 2 4) (zeroCols 1 2 4) [[1]] (2 ^ 60) (2 ^ 60)
+    (by decide) (by decide) (by decide) (by decide) (by decide) (by decide) (by decide) (by decide)
+    m2 σ (fun i r => Gadget.val ((2 : Ks.R 1) ^ staleG.base2k) staleG.size (Ks.keyPhase 1 [[1]] staleG.toPMat i r)
+                    - m2 * σ i * ((2 : Ks.R 1) ^ staleG.base2k) ^ (staleG.size - (r + 1) * staleG.dsize))
+    (by decide) (by decide) rfl (by decide) (by decide) (by decide) (Ks.entry_length staleG.toPMat 1 rfl (by decide)) (by decide)
+    (by intro i _ r _; exact (add_sub_cancel _ _).symm)
+  exact ⟨res, h1, h2⟩
+
+/-- **`cmux_assign_decrypts`** — `Cmux::cmux_assign(res, a, s)`: `d = res − a` (`glwe_sub_assign`, common limbs), added operand `a`. -/
+theorem cmux_assign_decrypts {N : Nat} (big128 : Bool) (rb : Nat) (r a : List Col) (g : EpGGSW) (res0 tmp0 : List Col) (sk : List Poly)
+    (X Y : Int)
+    (hg : (g.n == N && g.wf && rb == g.base2k && shapeOk N (g.rank + 1) (r.getD 0 []).length r
+       && shapeOk N (g.rank + 1) (a.getD 0 []).length a) = true)
+    (hgb1 : 1 ≤ g.base2k) (hgb : g.base2k ≤ 62)
+    (hX0 : 0 ≤ X) (hY0 : 0 ≤ Y) (hH : X + Y + 8 ≤ 2 ^ (bitsOf big128 - 2))
+    (hPb : ∀ c ∈ epInternal ((List.range (g.rank + 1)).map (fun i => vecSubAssignW w64 (r.getD i []) (a.getD i []))) g res0 tmp0,
+      ∀ l ∈ c, ∀ x ∈ l, |x| ≤ X)
+    (hab : ∀ c ∈ a, ∀ l ∈ c, ∀ x ∈ l, |x| ≤ Y)
+    (m2 : Ks.R N) (σ : ℕ → Ks.R N) (E : ℕ → ℕ → Ks.R N)
+    (hd : 1 ≤ g.dsize) (hN : 0 < N) (hn : g.n = N)
+    (haD : shapeOk g.n (g.rank + 1) (((List.range (g.rank + 1)).map (fun i => vecSubAssignW w64 (r.getD i []) (a.getD i []))).getD 0 []).length
+      ((List.range (g.rank + 1)).map (fun i => vecSubAssignW w64 (r.getD i []) (a.getD i []))) = true)
+    (h0 : shapeOk g.n (g.rank + 1) g.size res0 = true) (ht : shapeOk g.n (g.rank + 1) g.size tmp0 = true)
+    (hM : ∀ j q, (g.toPMat.entry j q).length = N) (hS : g.dnum * g.dsize ≤ g.size)
+    (hkey : ∀ i, i < g.rank + 1 → ∀ r, r < g.dnum →
+      Gadget.val ((2 : Ks.R N) ^ g.base2k) g.size (Ks.keyPhase N sk g.toPMat i r)
+        = m2 * σ i * ((2 : Ks.R N) ^ g.base2k) ^ (g.size - (r + 1) * g.dsize) + E i r) :
+    ∃ res, cmuxAssign big128 N rb r a g res0 tmp0 = .ok res ∧
+      CmuxSpec N rb (r.getD 0 []).length g sk m2 σ E ((List.range (g.rank + 1)).map (fun i => vecSubAssignW w64 (r.getD i []) (a.getD i []))) a res := by
+  have hg' := hg
+  simp only [Bool.and_eq_true, beq_iff_eq] at hg'
+  obtain ⟨⟨⟨⟨_, _⟩, hrb⟩, _⟩, has⟩ := hg'
+  obtain ⟨res, h1, h2⟩ := cmuxTail_total big128 rb (r.getD 0 []).length _ a g res0 tmp0 sk X Y hrb hgb1 hgb hX0 hY0 hH hPb
+    (shapeOk_limbs N _ _ a has) hab m2 σ E hd hN hn haD h0 ht hM hS hkey
+  refine ⟨res, ?_, h2⟩
+  unfold cmuxAssign
+  simp only [hg, Bool.not_true, Bool.false_eq_true, if_false]
+  exact h1
+
+example (m2 : Ks.R 1) (σ : ℕ → Ks.R 1) : ∃ res, cmuxAssign false 1 4 ([[[1], [2], [3]], [[0], [1], [0]]] : List Col) ([[[0], [0], [1]], [[0], [0], [0]]] : List Col) staleG (zeroCols 1 2 4) (zeroCols 1 2 4) = .ok res ∧ C02L.GWF 1 (Ks.mkCt 4 1 res) := by
+  obtain ⟨res, h1, h2, _⟩ := cmux_assign_decrypts (N := 1) false 4 ([[[1], [2], [3]], [[0], [1], [0]]] : List Col) ([[[0], [0], [1]], [[0], [0], [0]]] : List Col) staleG (zeroCols 1 2 4) (zeroCols 1 2 4) [[1]] (2 ^ 60) (2 ^ 60)
+    (by decide) (by decide) (by decide) (by decide) (by decide) (by decide) (by decide) (by decide)
+    m2 σ (fun i r => Gadget.val ((2 : Ks.R 1) ^ staleG.base2k) staleG.size (Ks.keyPhase 1 [[1]] staleG.toPMat i r)
+                    - m2 * σ i * ((2 : Ks.R 1) ^ staleG.base2k) ^ (staleG.size - (r + 1) * staleG.dsize))
+    (by decide) (by decide) rfl (by decide) (by decide) (by decide) (Ks.entry_length staleG.toPMat 1 rfl (by decide)) (by decide)
+    (by intro i _ r _; exact (add_sub_cancel _ _).symm)
+  exact ⟨res, h1, h2⟩
+
+/-- **`cmux_assign_neg_decrypts`** — `Cmux::cmux_assign_neg(res, a, s)`: `d = a − res` in a temporary of `max(res.size, a.size)` limbs, added
+operand `res`. -/
+theorem cmux_assign_neg_decrypts {N : Nat} (big128 : Bool) (rb : Nat) (r a : List Col) (g : EpGGSW) (res0 tmp0 : List Col) (sk : List Poly)
+    (X Y : Int)
+    (hg : (g.n == N && g.wf && rb == g.base2k && shapeOk N (g.rank + 1) (r.getD 0 []).length r
+       && shapeOk N (g.rank + 1) (a.getD 0 []).length a) = true)
+    (hgb1 : 1 ≤ g.base2k) (hgb : g.base2k ≤ 62)
+    (hX0 : 0 ≤ X) (hY0 : 0 ≤ Y) (hH : X + Y + 8 ≤ 2 ^ (bitsOf big128 - 2))
+    (hPb : ∀ c ∈ epInternal (glweSubSameRank N (max (r.getD 0 []).length (a.getD 0 []).length) a r) g res0 tmp0, ∀ l ∈ c, ∀ x ∈ l, |x| ≤ X)
+    (hrb' : ∀ c ∈ r, ∀ l ∈ c, ∀ x ∈ l, |x| ≤ Y)
+    (m2 : Ks.R N) (σ : ℕ → Ks.R N) (E : ℕ → ℕ → Ks.R N)
+    (hd : 1 ≤ g.dsize) (hN : 0 < N) (hn : g.n = N)
+    (haD : shapeOk g.n (g.rank + 1) ((glweSubSameRank N (max (r.getD 0 []).length (a.getD 0 []).length) a r).getD 0 []).length
+      (glweSubSameRank N (max (r.getD 0 []).length (a.getD 0 []).length) a r) = true)
+    (h0 : shapeOk g.n (g.rank + 1) g.size res0 = true) (ht : shapeOk g.n (g.rank + 1) g.size tmp0 = true)
+    (hM : ∀ j q, (g.toPMat.entry j q).length = N) (hS : g.dnum * g.dsize ≤ g.size)
+    (hkey : ∀ i, i < g.rank + 1 → ∀ r, r < g.dnum →
+      Gadget.val ((2 : Ks.R N) ^ g.base2k) g.size (Ks.keyPhase N sk g.toPMat i r)
+        = m2 * σ i * ((2 : Ks.R N) ^ g.base2k) ^ (g.size - (r + 1) * g.dsize) + E i r) :
+    ∃ res, cmuxAssignNeg big128 N rb r a g res0 tmp0 = .ok res ∧
+      CmuxSpec N rb (r.getD 0 []).length g sk m2 σ E (glweSubSameRank N (max (r.getD 0 []).length (a.getD 0 []).length) a r) r res := by
+  have hg' := hg
+  simp only [Bool.and_eq_true, beq_iff_eq] at hg'
+  obtain ⟨⟨⟨⟨_, _⟩, hrb⟩, hrs⟩, _⟩ := hg'
+  obtain ⟨res, h1, h2⟩ := cmuxTail_total big128 rb (r.getD 0 []).length _ r g res0 tmp0 sk X Y hrb hgb1 hgb hX0 hY0 hH hPb
+    (shapeOk_limbs N _ _ r hrs) hrb' m2 σ E hd hN hn haD h0 ht hM hS hkey
+  refine ⟨res, ?_, h2⟩
+  unfold cmuxAssignNeg
+  simp only [hg, Bool.not_true, Bool.false_eq_true, if_false]
+  exact h1
+
+example (m2 : Ks.R 1) (σ : ℕ → Ks.R 1) : ∃ res, cmuxAssignNeg true 1 4 ([[[1], [2], [3]], [[0], [1], [0]]] : List Col) ([[[0], [0], [1]], [[0], [0], [0]]] : List Col) staleG (zeroCols 1 2 4) (zeroCols 1 2 4) = .ok res ∧ C02L.GWF 1 (Ks.mkCt 4 1 res) := by
+  obtain ⟨res, h1, h2, _⟩ := cmux_assign_neg_decrypts (N := 1) true 4 ([[[1], [2], [3]], [[0], [1], [0]]] : List Col) ([[[0], [0], [1]], [[0], [0], [0]]] : List Col) staleG (zeroCols 1 2 4) (zeroCols 1 2 4) [[1]] (2 ^ 60) (2 ^ 60)
+    (by decide) (by decide) (by decide) (by decide) (by decide) (by decide) (by decide) (by decide)
+    m2 σ (fun i r => Gadget.val ((2 : Ks.R 1) ^ staleG.base2k) staleG.size (Ks.keyPhase 1 [[1]] staleG.toPMat i r)
+                    - m2 * σ i * ((2 : Ks.R 1) ^ staleG.base2k) ^ (staleG.size - (r + 1) * staleG.dsize))
+    (by decide) (by decide) rfl (by decide) (by decide) (by decide) (Ks.entry_length staleG.toPMat 1 rfl (by decide)) (by decide)
+    (by intro i _ r _; exact (add_sub_cancel _ _).symm)
+  exact ⟨res, h1, h2⟩
+
 end C04
